@@ -2,7 +2,6 @@
 Decides the exemption chain as a complete decision table.
 """
 import ast
-import itertools
 
 from ..core import AnalysisError, unparse, qualname
 from .. import rules_e1 as R
@@ -21,116 +20,6 @@ EXPLANATION = (
 TECHNIQUE = 'decision-table extraction from the AST + exhaustive valuation enumeration against a reference table'
 
 LINTER = 'supp/linter.py'
-ATOMS = ['USED', 'UNDERSCORE', 'IS_STAR', 'MODCLASS', 'IS_IMPORT', 'FUTURE', 'QUALIFIED', 'IS_PARAM', 'PARENT_CLASS']
-
-
-def atom_of(e, env):
-    """Condition expression -> atom name, or raise."""
-    t = unparse(e)
-    if isinstance(e, ast.Call):
-        f = unparse(e.func)
-        a = [unparse(x) for x in e.args]
-        if f == 'hasattr' and a == ['name', "'used'"]:
-            return 'USED'
-        if f == 'getattr' and a[:2] == ['name', "'used'"]:
-            return 'USED'
-        if f == 'name.name.startswith' and a == ["'_'"]:
-            return 'UNDERSCORE'
-        if f == 'getattr' and a[:2] == ['name', "'is_star'"]:
-            return 'IS_STAR'
-        if f == 'isinstance' and len(e.args) == 2:
-            classes = env.get(a[1], a[1])
-            if a[0] == 'flow.scope' and set(classes_of(classes)) == {'SourceScope', 'ClassScope'}:
-                return 'MODCLASS'
-            if a[0] == 'name' and classes_of(classes) == ['ImportedName']:
-                return 'IS_IMPORT'
-            if a[0] == 'name' and classes_of(classes) == ['ArgumentName']:
-                return 'IS_PARAM'
-            if a[0] == 'flow.scope.parent' and classes_of(classes) == ['ClassScope']:
-                return 'PARENT_CLASS'
-    if t in ("name.module == '__future__'", "'__future__' == name.module"):
-        return 'FUTURE'
-    if t == 'name.name in qualified_imports':
-        return 'QUALIFIED'
-    if t == 'name.is_star':
-        return 'IS_STAR'
-    raise AnalysisError('lint report loop: unrecognised exemption condition `%s`' % t)
-
-
-def classes_of(txt):
-    txt = txt.strip()
-    if txt.startswith('('):
-        txt = txt[1:-1]
-    return [x.strip() for x in txt.split(',') if x.strip()]
-
-
-def ev(e, val, env):
-    if isinstance(e, ast.BoolOp):
-        vs = [ev(x, val, env) for x in e.values]
-        return all(vs) if isinstance(e.op, ast.And) else any(vs)
-    if isinstance(e, ast.UnaryOp) and isinstance(e.op, ast.Not):
-        return not ev(e.operand, val, env)
-    return val[atom_of(e, env)]
-
-
-class _Continue(Exception):
-    pass
-
-
-def run_body(stmts, val, env, state):
-    for st in stmts:
-        if isinstance(st, ast.Assign) and len(st.targets) == 1 and isinstance(st.targets[0], ast.Name):
-            state[st.targets[0].id] = st.value
-        elif isinstance(st, ast.If):
-            run_body(st.body if ev(st.test, val, env) else st.orelse, val, env, state)
-        elif isinstance(st, ast.Continue):
-            raise _Continue()
-        elif isinstance(st, ast.Expr) and isinstance(st.value, ast.Call) and unparse(st.value.func) == 'result.append':
-            state['__report__'] = st.value.args[0]
-        elif isinstance(st, ast.Expr) and isinstance(st.value, ast.Constant):
-            continue
-        elif isinstance(st, ast.Pass):
-            continue
-        else:
-            raise AnalysisError('lint report loop: unrecognised statement `%s`' % unparse(st)[:60])
-
-
-def consistent(v):
-    if v['IS_STAR'] and not v['IS_IMPORT']:
-        return False
-    if v['FUTURE'] and not v['IS_IMPORT']:
-        return False
-    if v['QUALIFIED'] and not v['IS_IMPORT']:
-        return False
-    if v['IS_PARAM'] and v['IS_IMPORT']:
-        return False
-    if v['IS_PARAM'] and v['MODCLASS']:
-        return False          # parameters live in the function's own region
-    if v['IS_STAR'] and not v['MODCLASS']:
-        return False          # import * is a SyntaxError outside module level
-    if v['FUTURE'] and not v['MODCLASS']:
-        return False          # from __future__ only at module level
-    if v['PARENT_CLASS'] and v['MODCLASS']:
-        # region's scope is module/class: "its parent is a class" only for a class nested in a class; keep
-        pass
-    return True
-
-
-def reference(v):
-    """From the property statement."""
-    if v['USED']:
-        return None
-    if not v['MODCLASS']:
-        # a local of a function or lambda
-        if v['UNDERSCORE']:
-            return None
-        if v['IS_PARAM'] and v['PARENT_CLASS']:
-            return None       # parameter of a method
-        return 'W01'
-    # module or class level: only imports are reported
-    if v['IS_IMPORT'] and not v['UNDERSCORE'] and not v['FUTURE'] and not v['IS_STAR'] and not v['QUALIFIED']:
-        return 'W02'
-    return None
 
 
 def run(repo, res):
@@ -138,51 +27,11 @@ def run(repo, res):
     res.extra['e1_shapes_interpreted'] = _ns
     res.extra['e1_shape_paths_interpreted'] = _np
     lint = repo.module_func(LINTER, 'lint')
-    loops = [n for n in lint.body if isinstance(n, ast.For) and 'all_names' in unparse(n.iter)]
-    if len(loops) != 1:
-        raise AnalysisError('lint: report loop over scope.all_names not found')
-    loop = loops[0]
-    if unparse(loop.target) != '(flow, name)' and unparse(loop.target) != 'flow, name':
-        raise AnalysisError('lint: report loop target changed: %s' % unparse(loop.target))
-    # module constants used in conditions
-    env = {}
-    for st in repo.tree(LINTER).body:
-        if isinstance(st, ast.Assign) and isinstance(st.targets[0], ast.Name):
-            env[st.targets[0].id] = unparse(st.value)
-    rows = 0
-    diffs = []
-    for bits in itertools.product([False, True], repeat=len(ATOMS)):
-        v = dict(zip(ATOMS, bits))
-        if not consistent(v):
-            continue
-        rows += 1
-        state = {}
-        try:
-            run_body(loop.body, v, env, state)
-            rep = state.get('__report__')
-            got = None
-            if rep is not None:
-                code = rep.elts[0]
-                if isinstance(code, ast.Name):
-                    code = state.get(code.id)
-                got = code.value if isinstance(code, ast.Constant) else unparse(code)
-        except _Continue:
-            got = None
-        want = reference(v)
-        ok = got == want
-        on = [a for a in ATOMS if v[a]]
-        if not ok:
-            diffs.append((on, got, want))
-        res.ob('C10-R1', 'row ' + ('+'.join(on) or 'none'), ok,
-               sample='%s -> %s' % ('+'.join(on) or '(plain unused local/global)', want))
-    res.count('decision_rows', rows, floor=60)
-    if diffs:
-        # report the smallest differing rows
-        diffs.sort(key=lambda d: len(d[0]))
-        for on, got, want in diffs[:5]:
-            res.fail('C10-R1', 'row ' + ('+'.join(on) or 'none'), LINTER, loop.lineno,
-                     'exemption chain differs from the stated rules for a binding with atoms {%s}: lint reports %s, the '
-                     'statement requires %s' % (', '.join(on) or 'none', got, want))
+    from .. import api_model
+    recs = api_model.lint_model(repo)
+    api_model.apply(res, recs, {'table': 'C10-R1', 'rows': 'C10-R1', 'fields': 'C10-R3', 'once': 'C10-R3',
+                                    'locals': 'C10-R4'}, LINTER, lint.lineno)
+    res.count('decision_rows', sum(1 for r in recs if r[0] == 'table'), floor=150)
 
     # ---- R2 binder -> class -------------------------------------------------------------------------
     brecs = R.binder_records(repo)
@@ -232,30 +81,7 @@ def run(repo, res):
               'names copied from a star import must be marked is_star (they are never reported as unused)')
 
     # ---- R3 reported fields / each binding once -----------------------------------------------------
-    rep = None
-    for nd in ast.walk(loop):
-        if isinstance(nd, ast.Call) and unparse(nd.func) == 'result.append':
-            rep = nd.args[0]
-    ok = False
-    if isinstance(rep, ast.Tuple) and len(rep.elts) >= 4:
-        t = [unparse(e) for e in rep.elts]
-        ok = t[0] == 'w' and 'name.name' in t[1] and t[2] == 'name.declared_at[0]' and t[3] == 'name.declared_at[1]'
-    res.check('C10-R3', 'report fields', ok, LINTER, loop.lineno,
-              "a report must be (code, message with the binding's own name, its declared_at line, column, ...)")
-    an = repo.method('supp/scope.py', 'SourceScope', 'all_names')
-    txt = unparse(an)
-    ok = 'for flow in self._all_flows' in txt and 'for name in flow._names' in txt
-    res.check('C10-R3', 'all_names enumerates each region once', ok, 'supp/scope.py', an.lineno,
-              'all_names must yield each element of each region\'s binding list exactly once')
-    adders = []
-    for rel, tree in repo.trees.items():
-        for nd in ast.walk(tree):
-            if isinstance(nd, ast.Call) and isinstance(nd.func, ast.Attribute) and nd.func.attr in ('append', 'extend', 'insert') \
-                    and unparse(nd.func.value).endswith('_all_flows'):
-                adders.append((rel, qualname(nd), nd.lineno))
-    ok = {q for _, q, _ in adders} <= {'SourceScope.add_flow'}
-    res.check('C10-R3', 'regions registered once', ok and bool(adders), 'supp/scope.py', adders[0][2] if adders else 0,
-              'regions must enter _all_flows only through add_flow (each once); writers: %s' % adders, nontrivial=False)
+    api_model.apply(res, api_model.all_names_model(repo), {'all_names': 'C10-R3'}, 'supp/scope.py', 0)
 
     # ---- R4 .used single writer -----------------------------------------------------------------------
     writers = []
@@ -270,28 +96,6 @@ def run(repo, res):
         res.check('C10-R4', '.used written in %s' % q, (rel, q) == (LINTER, 'use_name'), rel, line,
                   'the used flag may be set only by linter.use_name (found in %s)' % q)
     res.count('used_writers', len(writers), floor=2)
-    # the locals() special case marks exactly the bindings of the scope the call is made in
-    lint_fn = repo.module_func(LINTER, 'lint')
-    special = [n for n in ast.walk(lint_fn) if isinstance(n, ast.If) and "'locals'" in unparse(n.test)]
-    ok = False
-    detail = ''
-    if len(special) == 1:
-        loops = [n for n in ast.walk(ast.Module(body=special[0].body, type_ignores=[])) if isinstance(n, ast.For)]
-        if len(loops) == 1 and 'names_at' in unparse(loops[0].iter):
-            v = unparse(loops[0].target)
-            conds = [n for n in loops[0].body if isinstance(n, ast.If)]
-            if len(conds) == 1 and len(loops[0].body) == 1:
-                detail = unparse(conds[0].test)
-                same_scope = detail in ("getattr(%s, 'scope', None) is flow.scope" % v, '%s.scope is flow.scope' % v,
-                                        "getattr(%s, 'scope', None) == flow.scope" % v, '%s.scope == flow.scope' % v)
-                marks = [c for c in ast.walk(conds[0]) if isinstance(c, ast.Call) and unparse(c.func) == 'use_name'
-                         and unparse(c.args[0]) == v]
-                ok = same_scope and len(marks) == 1 and not conds[0].orelse
-    res.check('C10-R4', 'locals() marks the bindings of its own scope only', ok, LINTER,
-              special[0].lineno if special else lint_fn.lineno,
-              'a call of locals() must mark as used exactly the bindings of the scope it is made in (filter `%s`): marking '
-              'the names of enclosing functions hides their unused locals, marking fewer reports used ones' % detail,
-              sample='locals(): marks n for n in names_at(read) if n.scope is the scope of the call')
     res.assumptions.extend([
         '"parameter of a method" = parameter of a def or lambda whose enclosing scope is a class body',
         'global-declared bindings are not locals and are never candidates',
